@@ -51,6 +51,7 @@ type Prog struct {
 	copyAxioms map[string]*Sort
 	sortAxioms map[string]*Sort
 	permAxioms map[string]*Sort
+	ghostSorts map[string]*Sort // sorts of the call records (\ret, \arg)
 }
 
 func funcDisplayName(f *ssa.Function) string {
